@@ -244,6 +244,14 @@ pub fn install_panic_hook(as_violation: fn(&str) -> Option<String>) {
             .take(12)
             .collect();
         let detail = format!("panic at {}: {}\n{}", loc, msg, frames.join("\n"));
+        // the innermost function of the code under test (line numbers move with
+        // the hooks, function names do not)
+        let inner = frames
+            .iter()
+            .find(|l| l.contains("steel::") && !l.contains("steelsim"))
+            .map(|l| l.trim().splitn(2, ": ").nth(1).unwrap_or("").to_string())
+            .unwrap_or_default();
+        let msg = if inner.is_empty() { msg } else { format!("{} @{}", msg, inner) };
         match as_violation(&msg) {
             Some(sig) => violation(&sig, detail),
             None => harness_error(detail),
